@@ -108,7 +108,7 @@ impl expr::Expr
 					return None;
 				}
 
-				Some(left + 1 - right)
+				Some(left.checked_add(1)? - right)
 			}
 			
 			expr::Expr::SliceShort(_, _, size_expr, _) =>
